@@ -142,10 +142,9 @@ func genClass(r *vh.Rand, idx int, tier string) *classDesc {
 			c.pre = append(c.pre, k)
 		}
 	}
-	r2 := r.Fork(1)
-	for i := len(c.pre) - 1; i > 0; i-- { // shuffle
-		j := r2.Intn(i + 1)
-		c.pre[i], c.pre[j] = c.pre[j], c.pre[i]
+	// imports come first (as in any Go/XGo file); const and type declarations in either order
+	if n := len(c.pre); n >= 2 && c.pre[n-2] == "K" && c.pre[n-1] == "T" && r.Fork(1).Bool() {
+		c.pre[n-2], c.pre[n-1] = "T", "K"
 	}
 	switch {
 	case r.Chance(5):
@@ -163,7 +162,14 @@ func genClass(r *vh.Rand, idx int, tier string) *classDesc {
 		nf = 6 + r.Intn(5)
 	}
 	stem := 0
-	next := func() string { s := fieldStems[stem%len(fieldStems)]; stem++; return fmt.Sprintf("%s%d", s, stem) }
+	next := func() string {
+		s := fieldStems[stem%len(fieldStems)]
+		stem++
+		if c.varAfterFunc { // these become package-level variables: unique per class
+			return fmt.Sprintf("v%d%s%d", idx, s, stem)
+		}
+		return fmt.Sprintf("%s%d", s, stem)
+	}
 	embeds := map[string]bool{}
 	if !c.noVarBlock {
 		for i := 0; i < nf; i++ {
@@ -245,8 +251,9 @@ func genClass(r *vh.Rand, idx int, tier string) *classDesc {
 	if usesPkg && !hasI {
 		c.pre = append([]string{"I"}, c.pre...)
 	}
-	// globals (a later var block)
-	if r.Chance(40) {
+	// globals (a later var block; without a class var block the first var block would be
+	// taken for the class fields by the parser, so no globals then)
+	if r.Chance(40) && !c.noVarBlock {
 		c.globals = append(c.globals, globalVar{fmt.Sprintf("g%da", idx), "int", fmt.Sprint(2 + r.Intn(7))})
 		if r.Chance(40) {
 			c.globals = append(c.globals, globalVar{fmt.Sprintf("g%db", idx), "string", `"gs"`})
@@ -551,9 +558,25 @@ func (m *methodDesc) render(f form, cls string) string {
 	return b.String()
 }
 
-func (c *classDesc) preText() string {
+// preText renders the leading declarations; the explicit form (a plain .xgo file) must have
+// its imports first, a class file may have them anywhere among the leading declarations.
+func (c *classDesc) preText(f form) string {
 	var b strings.Builder
-	for _, p := range c.pre {
+	pre := c.pre
+	if f == explicitForm {
+		pre = nil
+		for _, p := range c.pre {
+			if p == "I" {
+				pre = append(pre, p)
+			}
+		}
+		for _, p := range c.pre {
+			if p != "I" {
+				pre = append(pre, p)
+			}
+		}
+	}
+	for _, p := range pre {
 		switch p {
 		case "I":
 			b.WriteString("import \"strings\"\n\n")
@@ -609,7 +632,7 @@ func (c *classDesc) usesStringsImport() bool {
 // classText: the .gox file
 func (c *classDesc) classText() string {
 	var b strings.Builder
-	b.WriteString(c.preText())
+	b.WriteString(c.preText(classForm))
 	varBlock := ""
 	if !c.noVarBlock {
 		varBlock = "var (\n" + c.fieldLines("\t") + ")\n\n"
@@ -640,7 +663,7 @@ func (c *classDesc) classText() string {
 // explicitText: plain XGo file with the explicit struct and pointer-receiver methods
 func (c *classDesc) explicitText() string {
 	var b strings.Builder
-	b.WriteString(c.preText())
+	b.WriteString(c.preText(explicitForm))
 	if c.varAfterFunc {
 		fmt.Fprintf(&b, "type %s struct {\n}\n\n", c.name)
 		// the var block declares package-level variables
@@ -1022,12 +1045,11 @@ func run(classes []*classDesc, o *vh.Out, workdir string, seed uint64) {
 	for _, c := range classes {
 		if msg, bad := dropped[c.name]; bad {
 			o.Count("class_compile_error")
-			impl := "COMPILE-ERROR " + msg
 			if strings.Contains(msg, "redeclared") {
-				impl = "redecl=" + vh.HexS(strings.Fields(msg)[0])
 				o.Count("class_redeclared")
+				o.Case(c.caseLine(), "redecl="+vh.HexS(strings.Fields(msg)[0]), true)
 			}
-			o.Case(c.caseLine(), impl, true)
+			// other compile errors: no type view exists; reported through the oracle only
 			if !c.dupField {
 				key := "class-form-compile-error"
 				if c.capture {
